@@ -237,11 +237,11 @@ def lake_build(targets: Sequence[str], timeout: int = 3000) -> Tuple[bool, str]:
     return proc.returncode == 0, proc.stdout.decode(errors="replace")
 
 
-def write_gen(ctx: Ctx, gens: Sequence[str]) -> None:
+def write_gen(ctx: Ctx, mod: Any, gens: Sequence[str]) -> None:
     from . import extract
 
     for name in gens:
-        fn = getattr(extract, f"gen_{name}")
+        fn = getattr(mod, f"gen_{name}", None) or getattr(extract, f"gen_{name}")
         path = LEAN / "AasVerif" / "Gen" / f"{name}.lean"
         try:
             content = fn(REPO)
@@ -411,7 +411,7 @@ def _run(ctx: Ctx, mod: Any, replay: Optional[str]) -> int:
     prop = ctx.prop
     props_modules: List[str] = list(getattr(mod, "LEAN_PROPS", [f"AasVerif.Props.{prop}"]))
     # E
-    write_gen(ctx, getattr(mod, "GEN", []))
+    write_gen(ctx, mod, getattr(mod, "GEN", []))
     # B (driver first: correspondence needs it even if a theorem breaks)
     ok, log = lake_build(["driver"])
     ctx.driver_ok = ok and DRIVER.exists()
